@@ -235,6 +235,7 @@ func checkC19(c *Ctx) {
 	// a raw statement keeps its text and values through every derivation (dry run or not)
 	checkCloneSQL(c, rk)
 	checkC19Readers(c)
+	checkC19VarsFrozen(c)
 
 	// ---- C19.subquery ----
 	rq := c.Rule("C19.subquery", "every pipeline execution started while rendering a value (Statement.AddVar) runs on a Session{DryRun: true} handle", 1)
